@@ -984,6 +984,77 @@ func (l *vC01Lab) install(kind, target string) bool {
 			}
 			m.Ns = out
 		}
+	case "nxdomain-suffix-sibling-nsec":
+		// an existing name denied with the zone's genuine SOA (replayable) and UNSIGNED NSECs of made-up sibling names whose
+		// presentation ENDS with the zone's name off a label boundary ("0zone.tld." -> "zzzone.tld." around "zone.tld.", and
+		// "!zone.tld." -> "+zone.tld." over the wildcard "*.tld." of the closest encloser the span implies): records outside
+		// the zone by labels, inside it for a textual suffix test; nobody ever signed or verified them
+		labels := dns.SplitDomainName(target)
+		if tz == nil || len(labels) < 2 {
+			return false
+		}
+		rest := strings.Join(labels[1:], ".") + "."
+		span := func(lo, hi string) dns.RR {
+			return &dns.NSEC{Hdr: dns.RR_Header{Name: lo + labels[0] + "." + rest, Rrtype: dns.TypeNSEC, Class: dns.ClassINET, Ttl: 60},
+				NextDomain: hi + labels[0] + "." + rest, TypeBitMap: []uint16{dns.TypeA, dns.TypeRRSIG, dns.TypeNSEC}}
+		}
+		f = func(s *vC01LServer, z *vC01LZone, q dns.Question, m *dns.Msg) {
+			if z == tz && q.Qtype == dns.TypeA && strings.HasPrefix(strings.ToLower(q.Name), "www.") {
+				m.Answer = nil
+				m.Rcode = dns.RcodeNameError
+				m.Ns = append(s.soa(z), span("0", "zz"), span("!", "+"))
+			}
+		}
+	case "ds-denial-forged-extra-key":
+		// a combined downgrade: the referral to the target loses its DS and every signature; "target DS" is answered NODATA
+		// with the parent's SOA and an NSEC at the cut signed by an attacker's key that claims the parent's name; that key
+		// rides in the parent's DNSKEY answer next to the genuine keys (whose signature no longer covers the set); below the
+		// cut the data is altered and unsigned. Each step alone ends in SERVFAIL.
+		var pz *vC01LZone
+		for _, z := range l.zones {
+			if z.cuts[strings.ToLower(target)] != nil {
+				pz = z
+			}
+		}
+		if pz == nil || tz == nil || !pz.signed {
+			return false
+		}
+		ak := l.attacker(pz.name, 256)
+		f = func(s *vC01LServer, z *vC01LZone, q dns.Question, m *dns.Msg) {
+			if q.Qtype == dns.TypeDNSKEY && strings.EqualFold(q.Name, pz.name) && len(m.Answer) > 0 {
+				m.Answer = append(m.Answer, ak.key)
+				return
+			}
+			if q.Qtype == dns.TypeDS && strings.EqualFold(q.Name, target) {
+				m.Answer, m.Rcode = nil, dns.RcodeSuccess
+				cut := &dns.NSEC{Hdr: dns.RR_Header{Name: tz.name, Rrtype: dns.TypeNSEC, Class: dns.ClassINET, Ttl: 60},
+					NextDomain: "zzz." + pz.name, TypeBitMap: []uint16{dns.TypeNS, dns.TypeRRSIG, dns.TypeNSEC}}
+				if pz.name == "." {
+					cut.NextDomain = "zzz."
+				}
+				m.Ns = append(l.forgeWith(ak, s.soa(pz)), l.forgeWith(ak, []dns.RR{cut})...)
+				return
+			}
+			if z != tz {
+				// the referral (or the shared server's answer section) loses the target's DS, its denial and every signature
+				var out []dns.RR
+				for _, rr := range m.Ns {
+					h := rr.Header()
+					if h.Rrtype == dns.TypeRRSIG || (strings.EqualFold(h.Name, target) && (h.Rrtype == dns.TypeDS || h.Rrtype == dns.TypeNSEC || h.Rrtype == dns.TypeNSEC3)) || h.Rrtype == dns.TypeNSEC3 {
+						continue
+					}
+					out = append(out, rr)
+				}
+				if len(m.Answer) == 0 {
+					m.Ns = out
+				}
+				return
+			}
+			if q.Qtype != dns.TypeDNSKEY && forgeA(m) {
+				m.Answer = vC01StripSigs(m.Answer)
+				m.Ns = vC01StripSigs(m.Ns)
+			}
+		}
 	case "nxdomain-forged": // an existing name denied with the zone's genuine apex records
 		f = func(s *vC01LServer, z *vC01LZone, q dns.Question, m *dns.Msg) {
 			if z == tz && q.Qtype == dns.TypeA && strings.HasPrefix(strings.ToLower(q.Name), "www.") {
@@ -1186,7 +1257,7 @@ func TestVerifC01Lab(t *testing.T) {
 	tampers := []string{"none", "none", "strip-sigs", "alter-a", "expired", "signer-name", "bitflip", "labels", "forged-untrusted-key", "dnskey-extra-key",
 		"ds-swap", "ds-drop", "nsec-drop", "nxdomain-forged", "inject-foreign", "island-hijack", "no-anchor", "wildcard-replay", "wildcard-replay-decoy", "parent-denial-nxdomain", "parent-denial-nodata",
 		"wildcard-replay-foreign-nsec", "wildcard-replay-parent-nsec", "wildcard-replay-foreign-nsec3", "wildcard-replay-straddling-nsec",
-		"alter-a-sig-alg", "sig-alg", "ds-sig-alg", "bare-nxdomain", "bare-nodata"}
+		"alter-a-sig-alg", "sig-alg", "ds-sig-alg", "bare-nxdomain", "bare-nodata", "nxdomain-suffix-sibling-nsec", "ds-denial-forged-extra-key"}
 	// a query asked ONCE on the same resolver before the question under test (DO=1, CD=0): another name and / or another
 	// type, so that what the first walk leaves in the delegation and answer caches meets a different question. pre.t == 0: none
 	type preQ struct {
@@ -1339,7 +1410,7 @@ func TestVerifC01Lab(t *testing.T) {
 		if topo == "shared-island" {
 			target = "sub.zone.tld."
 		}
-		if r.Intn(5) == 0 && topo != "shared-island" && tam != "ds-swap" && tam != "ds-drop" && tam != "ds-sig-alg" {
+		if r.Intn(5) == 0 && topo != "shared-island" && tam != "ds-swap" && tam != "ds-drop" && tam != "ds-sig-alg" && tam != "ds-denial-forged-extra-key" {
 			target = "tld."
 		}
 		if topo == "nsec3-optout" {
@@ -1362,7 +1433,7 @@ func TestVerifC01Lab(t *testing.T) {
 		if forcedQ < 0 && tam == "parent-denial-nxdomain" {
 			q = qs[0]
 		}
-		if forcedQ < 0 && (tam == "nxdomain-forged" || tam == "alter-a" || tam == "forged-untrusted-key" || tam == "dnskey-extra-key" || tam == "island-hijack" || tam == "ds-swap" || tam == "ds-drop" || tam == "inject-foreign" || tam == "expired" || tam == "alter-a-sig-alg" || tam == "ds-sig-alg") {
+		if forcedQ < 0 && (tam == "nxdomain-forged" || tam == "alter-a" || tam == "forged-untrusted-key" || tam == "dnskey-extra-key" || tam == "island-hijack" || tam == "ds-swap" || tam == "ds-drop" || tam == "inject-foreign" || tam == "expired" || tam == "alter-a-sig-alg" || tam == "ds-sig-alg" || tam == "nxdomain-suffix-sibling-nsec" || tam == "ds-denial-forged-extra-key") {
 			q = qs[0]
 		}
 		// a quarter of the scenarios are two-query histories: a meta-ish or ordinary type, for another or the same name, first
